@@ -72,7 +72,7 @@ func svcMethods(f *ir.File) (order []string) {
 func GoHTTP(f *ir.File, res *plug.Result) (Table, error) {
 	src := ""
 	for n, c := range res.Files {
-		if strings.HasSuffix(n, "_http.pb.go") {
+		if strings.HasSuffix(n, "_http.pb.go") && ownFile(f, n) {
 			src = c
 		}
 	}
@@ -129,7 +129,7 @@ var (
 func GoClient(f *ir.File, res *plug.Result) (Table, error) {
 	src := ""
 	for n, c := range res.Files {
-		if strings.HasSuffix(n, "_client.pb.go") {
+		if strings.HasSuffix(n, "_client.pb.go") && ownFile(f, n) {
 			src = c
 		}
 	}
@@ -183,7 +183,7 @@ var (
 func TSClient(f *ir.File, res *plug.Result) (Table, error) {
 	src := ""
 	for n, c := range res.Files {
-		if strings.HasSuffix(n, "_client.ts") {
+		if strings.HasSuffix(n, "_client.ts") && ownFile(f, n) {
 			src = c
 		}
 	}
@@ -234,7 +234,7 @@ var (
 func TSServer(f *ir.File, res *plug.Result) (Table, error) {
 	src := ""
 	for n, c := range res.Files {
-		if strings.HasSuffix(n, "_server.ts") {
+		if strings.HasSuffix(n, "_server.ts") && ownFile(f, n) {
 			src = c
 		}
 	}
@@ -332,4 +332,12 @@ func OpenAPI(f *ir.File, res *plug.Result) (Table, map[string]int, error) {
 		}
 	}
 	return t, counts, nil
+}
+
+// ownFile: was the emitted file n generated for proto file f (same base name)? Go plugins emit under
+// the go_package import path, TS plugins next to the proto file: compare base names only.
+func ownFile(f *ir.File, n string) bool {
+	base := strings.TrimSuffix(f.Name[strings.LastIndex(f.Name, "/")+1:], ".proto")
+	fn := n[strings.LastIndex(n, "/")+1:]
+	return strings.HasPrefix(fn, base+"_") || strings.HasPrefix(fn, base+".")
 }
